@@ -3,39 +3,55 @@ SPEC = {
     "level": "exploration",
     "parts": [part("c01_forces", "plain", ["c01_forces.cpp"], env={"OMP_NUM_THREADS": "1"},
                    timeout={"quick": 900, "thorough": 2400})],
-    "rule": "product enumeration component type (57 entries: every component constructible offline, with its variants) x "
-            "atom-group option (plain, table masses, dummyAtom second group, centerToReference, rotateToReference, both, "
-            "separate fittingGroup, fittingGroup with enableFitGradients off, fit on the second group) x combination "
-            "(single, coeff -2.5, exp 2, exp 3, two-component sum) x bias (harmonic, harmonicWalls inside/below/above, linear, "
-            "histogramRestraint, abmd active/inactive, metadynamics without grids with 3 frozen hills, opes_metad with frozen "
-            "kernels) x 3 geometries x cell off/orthorhombic with groups split across the boundary. quick = every component x "
-            "every option with harmonic plus a greedy all-pairs covering of the six factors; thorough adds, level by level, "
-            "comp x option x combination x bias, then x geometry x cell, then the full product. Each case: every coordinate "
-            "of every atom Colvars requested is displaced by +-h and +-h/2 on a fresh module replaying the same history; "
-            "force + Richardson-extrapolated dE/dx must vanish. A case is distinct by its 6-tuple and non-trivial when at "
-            "least one checked coordinate has a non-zero force or energy derivative (cases configured to have zero energy, "
-            "rejected configurations and near-singular coordinates are counted separately)",
-    "assumptions": ["finite alphabet of reals: three 13/16-atom geometries, one mass and one charge table, one cell; nothing is "
-                    "claimed for other coordinates",
-                    "energy derivative by central finite differences (h=1e-3, 5e-4 A, Richardson); coordinates where the two "
-                    "estimates disagree by more than 1e-3 of the largest force are classified near-singular and skipped",
-                    "atoms never requested by Colvars cannot influence the energy because the engine simulator never shows "
-                    "their coordinates to the library; for them only 'no force' is checked",
+    "rule": "product enumeration of component (57 entries: every component type constructible offline in this build, with "
+            "variants: distance, distanceVec, distanceDir, distanceZ(+ref2), distanceXY(+ref2), polarTheta/Phi, distanceInv, "
+            "distancePairs, dipoleMagnitude, cartesian, coordNum (+aniso, +group2CenterOnly, +pairlist), selfCoordNum (+pairlist), "
+            "groupCoord (+aniso), angle, dipoleAngle, dihedral, hBond, alpha (2 hBondCoeff), dihedralPC, orientation "
+            "(+closestToQuaternion), orientationAngle/Proj, tilt, spinAngle, eulerPhi/Psi/Theta, rmsd (+atomPermutation), gyration, "
+            "inertia, inertiaZ, eigenvector (explicit fits only), aspath/azpath/gspath/gzpath, linearCombination (scalar and "
+            "distanceVec), neuralNetwork, aspathCV/azpathCV/gspathCV/gzpathCV) x atom-group option (unit masses, table masses, "
+            "dummyAtom second group, centerToReference, rotateToReference, both, separate fittingGroup, fittingGroup with "
+            "enableFitGradients off, centre+rotate on the second group) x combination (single, componentCoeff -2.5, componentExp 2, "
+            "componentExp 3, two-component sum) x bias (harmonic, harmonicWalls inside/below/above, linear, histogramRestraint, "
+            "abmd active/inactive, metadynamics useGrids off with 3 frozen hills, opes_metad with frozen kernels) x 3 geometries x "
+            "cell off / orthorhombic 20x23x26 with groups split across the boundary. Bias parameters are derived from the probed "
+            "value of the variable so that every bias is active at a comparable strength. quick = level 1 = every component x every "
+            "option with harmonic plus a greedy all-pairs covering of the six factors; thorough adds level 2 (component x option x "
+            "bias), level 3 (component x option x combination, component x combination x bias), level 4 (component x option x "
+            "geometry x cell) and then the full product one (cell, geometry) slice per level; each level runs to completion and a "
+            "level is started only if it is expected to finish inside the tier budget (exhaustive=false says the full product was "
+            "not completed; notes say which levels were). Per case: every coordinate of every atom Colvars requested is displaced "
+            "by +-h and +-h/2, each point on a fresh module replaying the same history; applied force + Richardson-extrapolated "
+            "dE/dx must vanish within 1e-6 of the largest force in the case. A case is distinct by its 6-tuple and non-trivial when "
+            "at least one checked coordinate has a non-zero force or energy derivative; cases configured to have zero energy, "
+            "rejected configurations, constant variables and near-singular coordinates are counted separately",
+    "assumptions": ["finite alphabet of reals: three 13/16-atom geometries (one base set, two rotated+perturbed copies), two reference "
+                    "sets, one mass table (plus unit masses), one charge table, one cell; nothing is claimed for other coordinates",
+                    "energy derivative by central finite differences (h=1e-3 and 5e-4 A, Richardson); a coordinate whose two "
+                    "estimates differ by more than 1e-3 of the largest force is classified near-singular, counted and skipped",
+                    "atoms never requested by Colvars cannot influence the energy because the engine simulator never shows their "
+                    "coordinates to the library; for them only 'no force' is checked",
                     "enableFitGradients off: documented weaker oracle (no force on fitting-only atoms; main-group forces equal "
                     "the derivative at fixed fit, which with a disjoint fitting group is the plain derivative)",
-                    "excluded by documentation: eigenvector with its default self-fit; grid-tabulated biases; Lepton/Torch/"
-                    "Tcl/volmap components are not in this build"],
+                    "groups fitted by an optimal rotation have at least 3 atoms (a 2-atom group leaves the rotation degenerate: "
+                    "documented singular geometry)",
+                    "excluded by documentation: eigenvector with its default self-fit; grid-tabulated biases; Lepton/Torch/Tcl/"
+                    "volmap components are not in this build",
+                    "colvarsRestartFrequency is set non-zero in every configuration because opes_metad divides by it (a crash "
+                    "outside this property, reported separately)"],
 }
 META = {
   "text": "Bounded-exhaustive exploration of the product component x atom-group option x combination x bias x geometry x cell: "
           "every case is run on the real library through the engine simulator, and for every atom the library requested and "
           "every axis the force handed to the engine is compared with minus the central finite-difference derivative (two "
           "step sizes, Richardson) of the energy reported through add_energy(), each difference point being a fresh module "
-          "that replays the same history so that hills/kernels/running extrema are frozen. The quantifier ranges over real "
-          "coordinates, so the claim is limited to the stated alphabet.",
+          "that replays the same history so that hills/kernels/running extrema/pair lists are frozen. The quantifier ranges over "
+          "real coordinates, so the claim is limited to the stated alphabet.",
   "design_ref": "DESIGN.md section 3, C01",
   "note": "Trusted: the engine simulator; finite-difference derivative with a two-step self-check (near-singular coordinates "
           "are counted and skipped, never reported); finite alphabet of geometries/masses/charges. Violations are attributed "
-          "by differential re-runs (component/option core, combination, cell, else the bias) to give root-cause signatures.",
+          "by differential re-runs (component with plain groups, component with the group option, combination, cell, else the "
+          "bias) so that one root cause gives one signature; a configuration refused by Colvars counts as rejected only when "
+          "the refusal is a documented one, otherwise the run is a harness error.",
   "technique": "exhaustive product enumeration with a finite-difference energy-gradient oracle on fresh replayed modules",
 }
